@@ -6,6 +6,7 @@ import (
 	"io"
 	"math"
 	"math/rand"
+	"sort"
 	"strings"
 
 	"github.com/reusee/sb"
@@ -223,7 +224,13 @@ func famCompare(dir string, seed int64, tier string) {
 	type pair struct{ a, b []sb.Token }
 	var pairs []pair
 	// same-kind pairs (all for small groups, sampled for big ones)
-	for _, ts := range byKind {
+	kindsSorted := make([]int, 0, len(byKind))
+	for k := range byKind {
+		kindsSorted = append(kindsSorted, int(k))
+	}
+	sort.Ints(kindsSorted) // map order would make the sampled pairs differ between two runs of one seed
+	for _, kk := range kindsSorted {
+		ts := byKind[sb.Kind(kk)]
 		n := len(ts)
 		limit := 250
 		if thorough {
@@ -280,6 +287,73 @@ func famCompare(dir string, seed int64, tier string) {
 			a, b = b, a
 		}
 		pairs = append(pairs, pair{a, b})
+	}
+	// the shape of c06_decomposition / c06_tails_irrelevant: a pairwise-SAME prefix (signed zeros of both float
+	// widths stand against each other in it), then a pair of heads, then two unrelated tails - and the same front
+	// once more with other tails: the heads decide, whatever follows (own random stream: the cases above stay put)
+	{
+		rf := newRand(seed, "compare-firstdiff")
+		nfd := 150
+		if thorough {
+			nfd = 5000
+		}
+		notNaN := func(ts []sb.Token) []sb.Token {
+			var out []sb.Token
+			for _, t := range ts {
+				if !hasNaNPayload([]sb.Token{t}) {
+					out = append(out, t)
+				}
+			}
+			return out
+		}
+		negz := math.Copysign(0, -1)
+		for i := 0; i < nfd; i++ {
+			var p, q []sb.Token
+			for _, t := range notNaN(randTokens(rf, 5)) {
+				p, q = append(p, t), append(q, t)
+				if rf.Intn(2) == 0 {
+					z1, z2 := 0.0, negz
+					if rf.Intn(2) == 0 {
+						z1, z2 = z2, z1
+					}
+					if rf.Intn(2) == 0 {
+						p, q = append(p, sb.Token{Kind: sb.KindFloat64, Value: z1}), append(q, sb.Token{Kind: sb.KindFloat64, Value: z2})
+					} else {
+						p, q = append(p, sb.Token{Kind: sb.KindFloat32, Value: float32(z1)}), append(q, sb.Token{Kind: sb.KindFloat32, Value: float32(z2)})
+					}
+				}
+			}
+			x := alpha[rf.Intn(len(alpha))]
+			y := x
+			switch same := byKind[x.Kind]; rf.Intn(4) {
+			case 0:
+				y = alpha[rf.Intn(len(alpha))]
+			case 1: // the heads are the same too: the decision moves into the tails
+			default:
+				y = same[rf.Intn(len(same))]
+			}
+			if hasNaNPayload([]sb.Token{x, y}) {
+				continue
+			}
+			front := func(h sb.Token, pre []sb.Token, tail []sb.Token) []sb.Token {
+				out := append(append([]sb.Token{}, pre...), h)
+				return append(out, tail...)
+			}
+			for k := 0; k < 2; k++ {
+				ta, tb := notNaN(randTokens(rf, 4)), notNaN(randTokens(rf, 4))
+				if rf.Intn(4) == 0 {
+					ta = nil
+				}
+				if rf.Intn(4) == 0 {
+					tb = nil
+				}
+				pairs = append(pairs, pair{front(x, p, ta), front(y, q, tb)})
+			}
+			// and with one side ending where the other's head stands (the shorter stream sorts first)
+			if rf.Intn(3) == 0 {
+				pairs = append(pairs, pair{append([]sb.Token{}, p...), front(y, q, nil)}, pair{front(x, p, nil), append([]sb.Token{}, q...)})
+			}
+		}
 	}
 	pairs = append(pairs, pair{nil, nil})
 	// byte slices that ALIAS one another: views of one buffer with the same start and different lengths, with
